@@ -772,6 +772,16 @@ func ruleSortLess2(c *Ctx) {
 		return
 	}
 	call := calls[0]
+	{
+		g := c.buildCFG(fd.Body)
+		okDom := true
+		for _, r := range returnsOf(fd.Body) {
+			if !g.dominates(call, r) {
+				okDom = false
+			}
+		}
+		c.R.Check(okDom, "parser/oper.Sort", "every return is preceded by the sort", fd.Pos(), "no early return", "Sort can return without sorting (an 'already sorted' fast path must inspect every element, including the last)")
+	}
 	c.R.Check(c.calleeName(call) == "sort.SliceStable", "parser/oper.Sort", "stable sort", call.Pos(),
 		"sort.SliceStable keeps registration order among operators of equal length", "sort is not stable: operators of equal length may be reordered between lexer and parser tables")
 	lit, ok := call.Args[1].(*ast.FuncLit)
